@@ -26,7 +26,7 @@ sh("git -C /repo worktree remove --force " + wt)
 rc, out = sh("git -C /repo worktree add -q --detach %s HEAD" % wt)
 if rc: print(out); done("REJECT", "worktree")
 head = sh("git -C /repo rev-parse --short HEAD")[1].strip()
-demo_rel = meta["demo_path_in_repo"]
+demo_rel = meta["demo_path_in_repo"].split()[0].rstrip(",;")
 demos = [f for f in os.listdir(src) if f.endswith(".go")]
 def place():
     dst = os.path.join(wt, demo_rel)
@@ -43,6 +43,8 @@ cmd = meta["demo_cmd"]
 notes = []
 for i in range(2):
     rc, out = sh(cmd, cwd=wt, timeout=600)
+    if rc == 0 and ("no tests to run" in out or "no test files" in out):
+        done("REJECT", "demo command runs no test on the unchanged tree: " + cmd)
     if rc != 0:
         open("/tmp/v7/%s.pristine.log" % pid, "w").write(out)
         done("REJECT", "demo fails on the unchanged tree (try %d, rc=%d)" % (i + 1, rc))
